@@ -1,6 +1,7 @@
 //! vmc <PROPERTY> <quick|thorough> [--replay FILE]
 mod c03;
 mod c04;
+mod schedmc;
 
 use vcore::ev::Tier;
 
@@ -16,6 +17,10 @@ fn main() {
     std::process::exit(2);
   }
   let prop = args[1].as_str();
+  if prop == "SCHED-WORKER" {
+    vcore::quiet_panics();
+    std::process::exit(schedmc::worker(&args[3]));
+  }
   let tier = Tier::parse(&args[2]);
   let mut replay = None;
   let mut i = 3;
@@ -32,6 +37,7 @@ fn main() {
   let code = match prop {
     "C03" => c03::run(&ctx),
     "C04" => c04::run(&ctx),
+    "C05" | "C06" => schedmc::run(&ctx, prop),
     _ => {
       eprintln!("unknown property {prop}");
       2
